@@ -50,7 +50,7 @@ FAULT_PROBES = {"first_command_fails": "first_command_fails", "middle_command_fa
                 "second_job_same_jid_overlaps": "two_jobs_same_jid_overlap"}
 PROBES = ["all_commands_succeed", "first_command_fails", "middle_command_fails", "last_command_fails", "death_by_signal", "return_file_missing",
           "all_return_files_missing", "return_file_is_input_file", "binary_input_file", "unnamed_command", "no_return_files_requested",
-          "runner_killed_mid_command", "driver_second_instance_used_after_first", "driver_job_level_override", "driver_subclass_instance", "driver_created_used_dropped", "driver_class_level_envars", "two_jobs_same_jid_overlap"]
+          "runner_killed_mid_command", "driver_second_instance_used_after_first", "driver_job_level_override", "driver_subclass_instance", "driver_created_used_dropped", "driver_class_level_envars", "two_jobs_same_jid_overlap", "driver_found_through_PATH"]
 
 FAIL_KINDS = [("rc", 1), ("rc", 2), ("rc", 255), ("sig", -11)]
 
@@ -383,6 +383,43 @@ def _drivers(plan, res):
         del ds
         gc.collect()
         return bad
+
+    # ---- executables found through PATH: a driver created with find=True carries what PATH resolved to AT ITS creation,
+    # whatever earlier drivers of the same program name resolved to (or failed to resolve) under another PATH
+    import stat
+
+    pdir = os.path.join(env.SANDBOX, f"c17-path-{os.getpid()}")
+    shutil.rmtree(pdir, ignore_errors=True)
+    old_path = os.environ.get("PATH", "")
+    try:
+        for sub in ("binA", "binB"):
+            os.makedirs(os.path.join(pdir, sub))
+            fn = os.path.join(pdir, sub, "simprog")
+            with open(fn, "w") as f:
+                f.write("#!/bin/sh\nexit 0\n")
+            os.chmod(fn, os.stat(fn).st_mode | stat.S_IXUSR)
+        steps = [("", None), ("binA", "binA"), ("binB", "binB"), ("binA:binB", "binA"), ("", None), ("binB:binA", "binB")]
+        for k_, (pth, want_dir) in enumerate(steps):
+            os.environ["PATH"] = os.pathsep.join(os.path.join(pdir, x) for x in pth.split(":") if x)
+            res.evals += 1
+            res.stats["probe:driver_found_through_PATH"] += 1
+            try:
+                d = Drv(executable="simprog", nprocs=2, check_exe=True, find=True)
+                got = d.calc.prepare("pathitem", flag="P").commands[0][0].split()[0]
+            except FileNotFoundError:
+                got = None
+            want = None if want_dir is None else os.path.join(pdir, want_dir, "simprog")
+            if jl.get("executable") and got is not None:
+                want = jl["executable"] if want is not None else None
+            if got != want:
+                res.violate("driver-settings", "C17|driver-settings|executable-resolved-through-PATH",
+                            f"step {k_}: with PATH={pth!r} a new driver for 'simprog' built a command starting with "
+                            f"{(got or 'FileNotFoundError').replace(pdir, '<pathdir>')!r}, expected {(want or 'FileNotFoundError').replace(pdir, '<pathdir>')!r} "
+                            f"(earlier drivers of the same name were created under other PATH values)")
+                break
+    finally:
+        os.environ["PATH"] = old_path
+        shutil.rmtree(pdir, ignore_errors=True)
 
     res.evals += 96
     bad = pool("a") + pool("b")
